@@ -37,7 +37,7 @@ from sexp import Sym, dumps
 PROP = 'C03'
 RULE = ('random schemas (1-4 classes, 0-3 associations with 0-3 key attributes of every core type, shared referential '
         'attributes, reflexive and phrased associations, several associations to one referred class over the same '
-        'identifying attributes listed in different orders, type names spelled in any letter case attribute by '
+        'identifying attributes listed in different orders, short positional rows that leave trailing referential attributes unset, type names spelled in any letter case attribute by '
         'attribute, identifiers, classes inferred from INSERTs) populated from '
         'a pool of <= 4 values per type; per population: ALL permutations of the statements when there are <= 7 '
         '(quick: <= 6, and <= 7 on a sample), 50 random permutations otherwise; random partitions into 1-4 input '
@@ -52,7 +52,8 @@ ASSUMPTIONS = [
     'type names are spelled in any letter case',
     'no attribute is named __x__ (define_class / define_association reject names that python reserves, property C12)',
     'corresponding referential / identifying attributes have the same declared type (Python compares 1 == 1.0 == True)',
-    'positional INSERTs carry a value for every declared attribute (missing ones would take generator-drawn defaults, C19)',
+    'positional INSERTs carry a value for every declared attribute, or leave out only trailing REFERENTIAL attributes (these stay '
+    'unset: an unset key refers to nothing); any other missing attribute would take a generator-drawn / type default (C19)',
     'REAL values are dyadic rationals with at most six fraction digits (float() and %f are exact on them)',
     'the order in which os.walk lists sibling files is the operating system\'s; it is read off loader.statements',
 ]
